@@ -3,7 +3,7 @@
    Create / CreateFail / Drop / Call from the initial state (any number alive, any page growth). *)
 From Coq Require Import ZArith NArith List Bool.
 Import ListNotations.
-From Cffi Require Import C29.Model C29.Proofs C29.Prog C29.Gen C29.GenProofs.
+From Cffi Require Import C29.Model C29.Proofs C29.Prog C29.Gen C29.GenProofs C29.Invoke C29.GenInvoke C29.Refs.
 Open Scope Z_scope.
 
 (* the invariant: free list duplicate-free, live closure addresses duplicate-free, the two
@@ -102,6 +102,40 @@ Theorem C29_gen_no_overflow : forall ps bs, 0 < ps -> 0 < bs ->
   forall fuel step n total, 0 <= n -> first_overflow ps bs more_core_prog fuel step n total = None.
 Proof. exact gen_no_overflow. Qed.
 Print Assumptions C29_gen_no_overflow.
+
+(* ---- the info tuple (signature ctype, Python function, error value, onerror) bound to a closure is
+   owned by closure->user_data alone; general_invoke_callback() borrows it.  Its Py_INCREF / Py_DECREF
+   positions relative to the `goto error` exits are regenerated into C29/GenInvoke.v on every run. *)
+
+(* every path through general_invoke_callback — normal, or leaving through any of its `goto error`s
+   (PyTuple_New failing, an ARGUMENT COMING FROM C that convert_to_object rejects, the Python function
+   raising, the result not convertible) — leaves the tuple's reference count as it found it and never
+   goes below it *)
+Theorem C29_gen_invoke_paths_balanced : all_paths_balanced invoke_events = true.
+Proof. exact paths_balanced. Qed.
+Print Assumptions C29_gen_invoke_paths_balanced.
+
+(* user_data's tuple is alive as long as the closure is live: after ANY history of creations, failed
+   creations, drops and invocations along any path (so no later ffi.callback() can have its tuple placed
+   in the memory of a live callback's tuple) *)
+Theorem C29_tuple_alive_while_live : forall c rs h a,
+  rreachable c rs -> In (h, a) (live (base rs)) ->
+  exists r, lookup addr_eqb a (trefs rs) = Some r /\ 1 <= r.
+Proof. exact tuple_alive_while_live. Qed.
+Print Assumptions C29_tuple_alive_while_live.
+
+Theorem C29_invoke_runs_own : forall c rs h a k,
+  rreachable c rs -> In (h, a) (live (base rs)) ->
+  exists f, lookup N.eqb h (made (base rs)) = Some f /\ snd (rstep c rs (RInvoke h k)) = OFn f.
+Proof. exact invoke_runs_own. Qed.
+Print Assumptions C29_invoke_runs_own.
+
+(* non-vacuity: with the INCREF moved below the argument conversion, the path through the second
+   `goto error` (an argument that cannot be converted) drops a reference it never took *)
+Example C29_example_unbalanced_path :
+  let ev := [GFail; GFail; GInc; GFail; GFail; GDoneLabel; GDec; GReturn; GErrorLabel; GGotoDone] in
+  all_paths_balanced ev = false /\ delta (path ev 2) = -1 /\ delta (path ev 0) = 0 /\ delta (path ev 3) = 0.
+Proof. vm_compute. repeat split; reflexivity. Qed.
 
 (* non-vacuity of the search: a program that caps the page count AFTER computing count (and before
    mmap) overflows at its 14th growth step, after 17694 closures: 4681 items fit, 5924 are threaded *)
